@@ -2,6 +2,7 @@ package types
 
 import (
 	"github.com/goghcrow/yae/util"
+	"github.com/goghcrow/yae/verifhook"
 )
 
 // Env for typeChecker
@@ -46,6 +47,7 @@ func (e *Env) ForEach(f func(string, *Type)) {
 }
 
 func (e *Env) RegisterFun(f *Type) {
+	verifhook.Touch(e, true, "types.Env.RegisterFun")
 	util.Assert(f.Kind == KFun, "expect FunTy actual %s", f)
 	lookup, fk := f.Fun().OverLoaded()
 	if fk == MonoFun {
